@@ -152,7 +152,7 @@ def run_c07(tier, seed):
                           'convolve calls), both formats, memmap on/off; every row of every convolved-flux file compared with an independent convolution of the '
                           'SED it is labelled with; per-file vs cube; fits from either; distinct = configuration tuple')
     rng = np.random.default_rng(seed + 7)
-    n = 10 if tier == 'quick' else 200
+    n = 24 if tier == 'quick' else 200
     for t in range(n):
         case = dict(seed=seed, tag='c07', pseed=int(rng.integers(1, 10 ** 6)), n_models=int(rng.integers(1, 9)), n_ap=int(rng.integers(1, 6)), n_wav=int(rng.integers(12, 40)),
                     wav_desc=bool(t % 2), f_desc=bool((t // 2) % 2), nf=int(rng.integers(3, 9)), n_filters=1 + t % 3, memmap=bool((t // 3) % 2), two_calls=bool(t % 4 == 1),
@@ -431,7 +431,7 @@ def run_c10(tier, seed):
                           'output_convolved on/off, both formats; records compared with Fitter.fit+keep; metadata; sequences of 1..3 post-processing calls with '
                           'different selectors on file / list / single object, outputs compared and inputs snapshotted; distinct = (format, selector, call sequence)')
     rng = np.random.default_rng(seed + 10)
-    n = 6 if tier == 'quick' else 120
+    n = 16 if tier == 'quick' else 120
     sels = [('N', 3), ('F', 4.), ('C', 40.), ('A', 0), ('N', 0), ('E', 5.), ('D', 2.)]
     callsets = [[('wp', ('N', 1)), ('wr', ('N', 3)), ('wp', ('A', 0))], [('ex', ('N', 2)), ('wp', ('F', 3.))], [('wr', ('A', 0))], [('wp', ('C', 15.)), ('ex', ('A', 0)), ('wr', ('N', 1))]]
     for t in range(n):
@@ -573,7 +573,7 @@ def run_c09(tier, seed):
                           '(stored results themselves trimmed or complete) x 0..2 additional-parameter dictionaries in non-alphabetical insertion order x input as '
                           'file / list / single object; the three text outputs parsed back and compared with the named model\'s row; distinct = configuration')
     rng = np.random.default_rng(seed + 9)
-    n = 8 if tier == 'quick' else 160
+    n = 20 if tier == 'quick' else 160
     sels = [('N', 1), ('A', 0), ('N', 3), ('C', 1e-9), ('F', 3.), ('N', 50)]
     adds = [[], ['zeta', 'alpha'], ['beta'], ['zeta', 'alpha']]
     for t in range(n):
@@ -690,7 +690,7 @@ def run_c08(tier, seed):
                           '1 or 3 apertures (distance-dependent), permuted parameter tables, per-file packages mixing two wavelength grids of equal size and end points, SEDs in either spectral order, filters in either storage order, relative '
                           'errors 1e-3..0.3, planted source second in the data file or alone; distinct = (format, mode, m)')
     rng = np.random.default_rng(seed + 8)
-    n = 6 if tier == 'quick' else 150
+    n = 16 if tier == 'quick' else 150
     for t in range(n):
         case = dict(seed=seed, tag='c08', pseed=int(rng.integers(1, 10 ** 6)), version=1 + t % 2, n_models=int(rng.integers(2, 7)), n_ap=1 if (t // 2) % 2 == 0 else 3,
                     m=int(rng.integers(0, 8)), av0=float(rng.uniform(0.2, 6.)), sc0=float(rng.uniform(-0.5, 0.8)), d_idx=int(rng.integers(0, 9)), rel=float(10. ** rng.uniform(-2, -0.5)),
@@ -985,7 +985,7 @@ def run_c17(tier, seed):
                           '1..5 selected fits, all four display modes, results passed as object or file, extinction law tabulated in micron or Angstrom; number of '
                           'curves, best fit last, curve through the stored predicted flux within 3e-3; distinct = (n_ap, mode, n_sel, file/object)')
     rng = np.random.default_rng(seed + 17)
-    n = 5 if tier == 'quick' else 80
+    n = 12 if tier == 'quick' else 80
     for t in range(n):
         n_ap = 1 if t % 2 else int(rng.integers(3, 5))
         n_f = 3
